@@ -2,31 +2,6 @@
 //verif:pkg .
 package txscript
 
-import "github.com/btcsuite/btcd/wire/v2"
-
-// the spending transaction every signature below commits to (SIGHASH_ALL over the one-byte script code 0xae)
-func vMsTx() *wire.MsgTx {
-	tx := wire.NewMsgTx(2)
-	in := &wire.TxIn{Sequence: 0xfffffffe}
-	in.PreviousOutPoint.Hash[0] = 7
-	in.PreviousOutPoint.Index = 1
-	tx.AddTxIn(in)
-	tx.AddTxOut(&wire.TxOut{Value: 1000, PkScript: []byte{0x51}})
-	return tx
-}
-
-// public keys of the private keys 1, 2, 3 and their RFC6979 signatures (hash type byte appended) over vMsTx
-var vMsKeys = [3][]byte{
-	{0x2, 0x79, 0xbe, 0x66, 0x7e, 0xf9, 0xdc, 0xbb, 0xac, 0x55, 0xa0, 0x62, 0x95, 0xce, 0x87, 0xb, 0x7, 0x2, 0x9b, 0xfc, 0xdb, 0x2d, 0xce, 0x28, 0xd9, 0x59, 0xf2, 0x81, 0x5b, 0x16, 0xf8, 0x17, 0x98},
-	{0x2, 0xc6, 0x4, 0x7f, 0x94, 0x41, 0xed, 0x7d, 0x6d, 0x30, 0x45, 0x40, 0x6e, 0x95, 0xc0, 0x7c, 0xd8, 0x5c, 0x77, 0x8e, 0x4b, 0x8c, 0xef, 0x3c, 0xa7, 0xab, 0xac, 0x9, 0xb9, 0x5c, 0x70, 0x9e, 0xe5},
-	{0x2, 0xf9, 0x30, 0x8a, 0x1, 0x92, 0x58, 0xc3, 0x10, 0x49, 0x34, 0x4f, 0x85, 0xf8, 0x9d, 0x52, 0x29, 0xb5, 0x31, 0xc8, 0x45, 0x83, 0x6f, 0x99, 0xb0, 0x86, 0x1, 0xf1, 0x13, 0xbc, 0xe0, 0x36, 0xf9},
-}
-var vMsSigs = [3][]byte{
-	{0x30, 0x44, 0x2, 0x20, 0x42, 0xa1, 0x13, 0x19, 0xab, 0x62, 0x21, 0x91, 0xb7, 0x7d, 0x7f, 0xc4, 0x6b, 0x77, 0xe3, 0x2a, 0x2c, 0xa1, 0x1b, 0xb8, 0xef, 0xcd, 0xcc, 0x95, 0xba, 0xc1, 0x5b, 0xdd, 0x9b, 0x1e, 0xf, 0x41, 0x2, 0x20, 0x5, 0xe8, 0xf, 0xc, 0xe1, 0xc6, 0x26, 0xc0, 0xad, 0x6c, 0xfe, 0xd1, 0x6f, 0x43, 0xc, 0x85, 0xcf, 0x24, 0x1e, 0xdf, 0x94, 0x4d, 0xaa, 0xb0, 0x46, 0xb8, 0x5a, 0x40, 0xca, 0xc1, 0xe8, 0x95, 0x1},
-	{0x30, 0x44, 0x2, 0x20, 0x75, 0xd9, 0x81, 0x24, 0xf9, 0xab, 0x63, 0x57, 0x2d, 0x7a, 0xbe, 0x10, 0x55, 0x4f, 0x69, 0x37, 0xf0, 0x75, 0x46, 0xe8, 0xaa, 0x34, 0x77, 0x2a, 0xb8, 0x31, 0xef, 0xca, 0xd6, 0x6b, 0x0, 0xce, 0x2, 0x20, 0x16, 0x1, 0x12, 0x62, 0x77, 0x46, 0x7, 0xb3, 0xd2, 0x68, 0xe6, 0xb8, 0xb, 0x83, 0x9f, 0xeb, 0x95, 0x4, 0xfb, 0x7f, 0x97, 0x7b, 0x9b, 0xd7, 0x63, 0xb4, 0x86, 0x98, 0x8, 0xd1, 0x48, 0xd3, 0x1},
-	{0x30, 0x45, 0x2, 0x21, 0x0, 0xb4, 0xc9, 0xf5, 0xef, 0xc3, 0xf2, 0xa4, 0x5, 0x19, 0xd6, 0xcc, 0x4d, 0x3, 0x4f, 0xd5, 0xe5, 0x85, 0x2f, 0xf1, 0x53, 0xe1, 0xdb, 0x51, 0x73, 0xe5, 0x84, 0x76, 0xf7, 0xfb, 0x11, 0xe8, 0xcc, 0x2, 0x20, 0x48, 0x6, 0xf7, 0xe5, 0x98, 0x54, 0xfc, 0x5f, 0x7f, 0x3b, 0xd3, 0xdf, 0x96, 0x4b, 0x8c, 0x37, 0xba, 0xad, 0x2, 0xde, 0xcd, 0x2e, 0x9b, 0x3b, 0x42, 0x8b, 0x1a, 0x15, 0xe8, 0x2e, 0xe5, 0xd6, 0x1},
-}
-
 // C06(8): OP_CHECKMULTISIG, transcribed from Bitcoin Core's EvalScript: for every m-of-n shape up to 2 (thorough: 3) keys, every
 // assignment of {empty, signature by key k} to the signature slots and of the three keys to the key slots
 // (duplicates allowed), every dummy element and the NULLDUMMY / NULLFAIL flags, the real opcode pushes exactly the
